@@ -58,6 +58,8 @@ def run(R):
                     kf = c08.match_known_for(R, o) if hasattr(c08, "match_known_for") else None
                 except ImportError:
                     kf = None
+            if kf is None and c == "panic" and "on an `Err` value: Conflict { with:" in o["out"] and "analyses/user_components/router.rs" in o["out"]:
+                kf = next((f for f in R.known_findings() if f["id"] == "C09-router-template-lookup-panic"), None)
             if kf is not None:
                 R.known_hit(kf, o.get("corpus") or o["name"])
                 continue
